@@ -329,6 +329,10 @@ class Visitor(ast.NodeVisitor):
         # value assigned to each visited node
         self.recomputed_values = dict()  # type: Dict[ast.AST, Any]
 
+        # greater than zero while the parts of a comprehension are visited for the report only
+        # (the results of these visits are not used and the errors are ignored)
+        self._visiting_parts_of_comprehension = 0
+
     if sys.version_info < (3, 8):
 
         def visit_Num(self, node: ast.Num) -> Union[int, float]:
@@ -655,8 +659,15 @@ class Visitor(ast.NodeVisitor):
                 placeholder_observed = True
 
             if placeholder_observed:
-                # We can not know where Python stopped; we keep visiting the operands to re-compute their parts.
-                continue
+                # We can not know where Python stopped.
+                #
+                # Inside a comprehension, we keep visiting the operands to re-compute their parts for the report
+                # (the errors are ignored there). Elsewhere, the remaining operands must not be evaluated: Python
+                # might have skipped them and they need not be defined at all.
+                if self._visiting_parts_of_comprehension > 0:
+                    continue
+
+                break
 
             result = value
             if isinstance(node.op, ast.And) and not value:
@@ -689,8 +700,11 @@ class Visitor(ast.NodeVisitor):
                 placeholder_observed = True
 
             if placeholder_observed:
-                # We can not know where Python stopped; we keep visiting the comparators to re-compute their parts.
-                continue
+                # We can not know where Python stopped (please see the remark in ``visit_BoolOp``).
+                if self._visiting_parts_of_comprehension > 0:
+                    continue
+
+                break
 
             if isinstance(op, ast.Eq):
                 comparison = left == comparator
@@ -1113,11 +1127,15 @@ class Visitor(ast.NodeVisitor):
 
             nodes.extend(generator.ifs)
 
-        for a_node in nodes:
-            try:
-                self.visit(a_node)
-            except Exception:  # pylint: disable=broad-except
-                pass
+        self._visiting_parts_of_comprehension += 1
+        try:
+            for a_node in nodes:
+                try:
+                    self.visit(a_node)
+                except Exception:  # pylint: disable=broad-except
+                    pass
+        finally:
+            self._visiting_parts_of_comprehension -= 1
 
     def visit_GeneratorExp(self, node: ast.GeneratorExp) -> Any:
         """Compile the generator expression as a function and call it."""
